@@ -33,6 +33,6 @@ def race_stress(prop, tier, seed, proof_broken):
             break
     cov = {"race_stress_runs": runs, "race_stress_seconds_each": secs, "race_stress_operations": ops,
            "evaluations": max(ops, 1), "distinct_nontrivial": 2 if ops > 1000 else 0,
-           "rule": "witness hunter: 17 goroutines mixing every public call of bus, stores, upcast registry and materializer (re-entrant calls from handlers, filters, hooks) under the race detector with a progress watchdog; counts are operations completed (distinct_nontrivial is not measurable per operation: reported as 2 when the mix ran)",
+           "rule": "witness hunter: 19 goroutines (three of them in Wait at the same time) mixing every public call of bus, stores, upcast registry and materializer (re-entrant calls from handlers, filters, hooks) under the race detector with a progress watchdog; counts are operations completed (distinct_nontrivial is not measurable per operation: reported as 2 when the mix ran)",
            "samples": [{"stress": "racestress -d %ds -seed %d" % (secs, seed), "operations": ops}]}
     return viol, cov
